@@ -135,6 +135,14 @@ def transcript_text(scn_obj):
                 lines.append("I %s %s" % (key, " ".join(r)))
         # outputs of the implementation on which the model driver evaluates a certificate checker
         # that has a Lean soundness theorem (C15: minimum spanning forest)
+        if c.toks and c.toks[0] == "update" and c.O.get("update") == ["ok"] and "recv" in c.O:
+            for key in ("rcount", "recv", "dcount", "donors", "dfs", "bfs", "levels", "elev"):
+                if key in c.O:
+                    lines.append("I impl_%s %s" % (key, " ".join(c.O[key])))
+        if c.toks and c.toks[0] == "basins" and "basins" in c.O:
+            for key in ("basins", "outlets", "pits"):
+                if key in c.O:
+                    lines.append("I impl_%s %s" % (key, " ".join(c.O[key])))
         if c.toks and c.toks[0] == "bgraph" and "bg_edges" in c.O and "bg_tree" in c.O:
             lines.append("I impl_bg_edges " + " ".join(c.O["bg_edges"]))
             lines.append("I impl_bg_tree " + " ".join(c.O["bg_tree"]))
